@@ -1,11 +1,589 @@
-//! C19 — not built yet.
+//! C19 — unsorted `fst set` / `fst map` builds are independent of batching, fd limit, threads and
+//! worker scheduling.  Drives the REAL binary (fst-bin built from /repo with the verification
+//! hooks) and reads the result back with the fst library.
+//!
+//! case: `<mode:set|sum|max|min> <batch> <fd> <threads> <schedseed> <rows-per-file,…> <hexkey:val,…|_>`
+//! S: `<content>|verify=ok|sorted_equal=<yes|na>`   M: `len=<n>;shape=<g0>/<g1>/…;model=spec`
+//!   content = hexkey:val,… from `.stream()` of the output; sorted_equal compares the output bytes
+//!   with an in-process sorted build and with `fst <cmd> --sorted` on the sorted rows (inputs
+//!   without repeated keys only); shape = number of inputs of every union batch per generation,
+//!   from the VERIF-TRACE hook.
 use crate::common::*;
+use fst::raw;
+use fst::Streamer;
+use std::collections::{BTreeMap, BTreeSet, HashMap, HashSet};
+use std::path::{Path, PathBuf};
+use std::process::Command;
+use std::sync::atomic::{AtomicU64, Ordering};
+use std::sync::{Mutex, OnceLock};
+
 pub struct P;
-impl Prop for P {
-    fn generate(&self, _tier: Tier, _rng: &mut Rng, _stats: &mut Stats) -> Vec<String> {
+
+const REPO: &str = "/repo";
+
+fn target_dir() -> PathBuf {
+    // <harness>/target/release/fstv-harness -> <harness>/target
+    let exe = std::env::current_exe().expect("current_exe");
+    exe.parent().and_then(|p| p.parent()).expect("target dir").to_path_buf()
+}
+
+/// Build fst-bin from /repo's working tree with the hooks enabled (cargo decides whether anything
+/// has to be rebuilt); once per process.
+fn fst_bin() -> Result<PathBuf, String> {
+    static BIN: OnceLock<Result<PathBuf, String>> = OnceLock::new();
+    BIN.get_or_init(|| {
+        let repo = std::env::var("VERIF_REPO").unwrap_or_else(|_| REPO.to_string());
+        let tdir = target_dir().join("fstbin");
+        let out = Command::new("cargo")
+            .args(["build", "--release", "--offline", "-p", "fst-bin", "--target-dir"])
+            .arg(&tdir)
+            .current_dir(&repo)
+            .env("RUSTFLAGS", "--cfg burntsushi_fst_verif")
+            .env("CARGO_NET_OFFLINE", "true")
+            .output()
+            .map_err(|e| format!("cargo: {}", e))?;
+        if !out.status.success() {
+            let err = String::from_utf8_lossy(&out.stderr);
+            let tail: String = err.lines().rev().take(6).collect::<Vec<_>>().join(" / ");
+            return Err(format!("fst-bin does not build: {}", tail));
+        }
+        let bin = tdir.join("release").join("fst");
+        if bin.exists() { Ok(bin) } else { Err("fst binary missing after build".to_string()) }
+    })
+    .clone()
+}
+
+// ---------------------------------------------------------------- case syntax
+#[derive(Clone)]
+struct Case {
+    mode: String,
+    batch: u64,
+    fd: u64,
+    threads: u64,
+    seed: u64,
+    split: Vec<usize>,
+    items: Vec<(Vec<u8>, u64)>,
+}
+
+fn parse_case(case: &str) -> Case {
+    let f: Vec<&str> = case.split(' ').collect();
+    assert!(f.len() == 7, "bad case");
+    let items = if f[6] == "_" || f[6].is_empty() {
         vec![]
+    } else {
+        f[6].split(',')
+            .map(|it| {
+                let mut p = it.split(':');
+                let k = unhex(p.next().unwrap());
+                let v: u64 = p.next().unwrap().parse().unwrap();
+                (k, v)
+            })
+            .collect()
+    };
+    Case {
+        mode: f[0].to_string(),
+        batch: f[1].parse().unwrap(),
+        fd: f[2].parse().unwrap(),
+        threads: f[3].parse().unwrap(),
+        seed: f[4].parse().unwrap(),
+        split: f[5].split(',').map(|x| x.parse().unwrap()).collect(),
+        items,
     }
-    fn execute(&self, _case: &str) -> String {
-        String::new()
+}
+
+fn render_case(c: &Case) -> String {
+    let items = if c.items.is_empty() {
+        "_".to_string()
+    } else {
+        c.items.iter().map(|(k, v)| format!("{}:{}", hex(k), v)).collect::<Vec<_>>().join(",")
+    };
+    let split = c.split.iter().map(|x| x.to_string()).collect::<Vec<_>>().join(",");
+    format!("{} {} {} {} {} {} {}", c.mode, c.batch, c.fd, c.threads, c.seed, split, items)
+}
+
+fn has_repeats(items: &[(Vec<u8>, u64)]) -> bool {
+    let mut s = HashSet::new();
+    items.iter().any(|(k, _)| !s.insert(k.clone()))
+}
+
+// ---------------------------------------------------------------- schedule evidence
+struct Seen {
+    /// (input+batch+fd) -> distinct groupings observed over the runs of that configuration
+    per_config: HashMap<String, HashSet<String>>,
+    all: HashSet<String>,
+    reordered_runs: u64,
+    union_runs: u64,
+    union_batches: u64,
+}
+fn seen() -> &'static Mutex<Seen> {
+    static S: OnceLock<Mutex<Seen>> = OnceLock::new();
+    S.get_or_init(|| {
+        Mutex::new(Seen { per_config: HashMap::new(), all: HashSet::new(), reordered_runs: 0, union_runs: 0, union_batches: 0 })
+    })
+}
+
+/// trace lines -> (shape string, canonical grouping, any generation consumed out of index order)
+fn digest_trace(stderr: &str) -> (String, String, bool, u64) {
+    // gen -> index -> inputs
+    let mut gens: BTreeMap<u64, BTreeMap<u64, Vec<String>>> = BTreeMap::new();
+    for l in stderr.lines() {
+        let l = match l.strip_prefix("VERIF-TRACE union ") {
+            Some(r) => r,
+            None => continue,
+        };
+        let mut gen = 0u64;
+        let mut index = 0u64;
+        let mut inputs = vec![];
+        if let Some(p) = l.find("inputs=") {
+            let head = &l[..p];
+            for tok in head.split(' ') {
+                if let Some(v) = tok.strip_prefix("gen=") {
+                    gen = v.parse().unwrap_or(u64::MAX);
+                } else if let Some(v) = tok.strip_prefix("index=") {
+                    index = v.parse().unwrap_or(u64::MAX);
+                }
+            }
+            let body = l[p + 7..].trim().trim_start_matches('[').trim_end_matches(']');
+            for part in body.split(',') {
+                let name = part.trim().trim_matches('"');
+                if !name.is_empty() {
+                    inputs.push(name.to_string());
+                }
+            }
+        }
+        gens.entry(gen).or_default().insert(index, inputs);
+    }
+    let mut shape = vec![];
+    let mut canon = vec![];
+    let mut reordered = false;
+    let mut nb = 0u64;
+    for (g, idx) in &gens {
+        shape.push(idx.values().map(|v| v.len().to_string()).collect::<Vec<_>>().join(","));
+        let mut expect = 0u64;
+        for (i, inputs) in idx {
+            nb += 1;
+            canon.push(format!("{}.{}={}", g, i, inputs.join("+")));
+            for name in inputs {
+                // batch<k> or union-gen<g>-batch<k>
+                let k: u64 = name.rsplit("batch").next().and_then(|s| s.parse().ok()).unwrap_or(u64::MAX);
+                if k != expect {
+                    reordered = true;
+                }
+                expect += 1;
+            }
+        }
+    }
+    (shape.join("/"), canon.join(";"), reordered, nb)
+}
+
+// ---------------------------------------------------------------- running the binary
+static DIRCTR: AtomicU64 = AtomicU64::new(0);
+
+fn write_inputs(dir: &Path, c: &Case) -> Vec<PathBuf> {
+    let mut paths = vec![];
+    let mut pos = 0usize;
+    for (fi, n) in c.split.iter().enumerate() {
+        let mut buf: Vec<u8> = vec![];
+        for (k, v) in &c.items[pos..pos + n] {
+            buf.extend_from_slice(k);
+            if c.mode != "set" {
+                buf.extend_from_slice(format!(",{}", v).as_bytes());
+            }
+            buf.push(b'\n');
+        }
+        pos += n;
+        let p = dir.join(format!("in{}.{}", fi, if c.mode == "set" { "txt" } else { "csv" }));
+        std::fs::write(&p, &buf).unwrap();
+        paths.push(p);
+    }
+    assert!(pos == c.items.len(), "split does not cover the rows");
+    paths
+}
+
+fn run_fst(bin: &Path, dir: &Path, args: &[String], seed: Option<u64>) -> (Option<i32>, String) {
+    let mut cmd = Command::new(bin);
+    cmd.args(args).current_dir(dir).env("TMPDIR", dir).env("RUST_BACKTRACE", "0").env_remove("FST_VERIF_SCHED").env_remove("FST_VERIF_TRACE");
+    if let Some(s) = seed {
+        cmd.env("FST_VERIF_SCHED", s.to_string()).env("FST_VERIF_TRACE", "1");
+    }
+    match cmd.output() {
+        Ok(o) => (o.status.code(), String::from_utf8_lossy(&o.stderr).into_owned()),
+        Err(e) => (None, format!("spawn: {}", e)),
+    }
+}
+
+fn one_line(s: &str) -> String {
+    let t: String = s.lines().filter(|l| !l.starts_with("VERIF-TRACE")).take(2).collect::<Vec<_>>().join(" / ");
+    t.replace('\t', " ").chars().take(200).collect()
+}
+
+fn execute_in(bin: &Path, dir: &Path, c: &Case, case: &str) -> String {
+    let inputs = write_inputs(dir, c);
+    let cmdname = if c.mode == "set" { "set" } else { "map" };
+    let mut args: Vec<String> = vec![cmdname.to_string()];
+    match c.mode.as_str() {
+        "max" => args.push("--max".into()),
+        "min" => args.push("--min".into()),
+        _ => {}
+    }
+    // N.B. `--tmp-dir` is declared without a value in app.rs, so the temp directory can only be
+    // chosen through TMPDIR (env::temp_dir()).
+    args.extend(["--batch-size".into(), c.batch.to_string(), "--fd-limit".into(), c.fd.to_string(), "--threads".into(), c.threads.to_string(), "--force".into()]);
+    for p in &inputs {
+        args.push(p.file_name().unwrap().to_string_lossy().into_owned());
+    }
+    args.push("out.fst".into());
+    let (code, stderr) = run_fst(bin, dir, &args, Some(c.seed));
+    if code != Some(0) {
+        return format!("S:EXIT {:?} {}\tM:-", code, one_line(&stderr));
+    }
+    let (shape, canon, reordered, nb) = digest_trace(&stderr);
+    {
+        let mut s = seen().lock().unwrap();
+        if nb > 0 {
+            s.union_runs += 1;
+            s.union_batches += nb;
+            if reordered {
+                s.reordered_runs += 1;
+            }
+            // configuration = everything but threads and seed
+            let f: Vec<&str> = case.split(' ').collect();
+            let key = format!("{} {} {} {} {}", f[0], f[1], f[2], f[5], f[6]);
+            s.all.insert(format!("{}|{}", key, canon));
+            s.per_config.entry(key).or_default().insert(canon);
+        }
+    }
+    let bytes = match std::fs::read(dir.join("out.fst")) {
+        Ok(b) => b,
+        Err(e) => return format!("S:NOOUTPUT {}\tM:-", e),
+    };
+    let fst = match raw::Fst::new(bytes.clone()) {
+        Ok(f) => f,
+        Err(e) => return format!("S:UNREADABLE {}\tM:-", one_line(&e.to_string())),
+    };
+    let mut content = vec![];
+    let mut n = 0usize;
+    {
+        let mut st = fst.stream();
+        while let Some((k, v)) = st.next() {
+            content.push(format!("{}:{}", hex(k), v.value()));
+            n += 1;
+        }
+    }
+    let content = if content.is_empty() { "_".to_string() } else { content.join(",") };
+    let verify = match fst.verify() {
+        Ok(()) => "ok".to_string(),
+        Err(e) => format!("FAILED({})", one_line(&e.to_string())),
+    };
+    let mut x = String::from("ok");
+    let sorted_equal = if has_repeats(&c.items) {
+        "na".to_string()
+    } else {
+        let mut rows = c.items.clone();
+        rows.sort();
+        // (a) in-process sorted build
+        let mut b = raw::Builder::memory();
+        for (k, v) in &rows {
+            b.insert(k, *v).unwrap();
+        }
+        let want = b.into_inner().unwrap();
+        if want != bytes {
+            "no(in-process sorted build differs)".to_string()
+        } else {
+            // (b) the CLI's own sorted mode on the sorted rows.  `fst set --sorted` stops reading a
+            // file at the first empty line, so an input with the empty key has no sorted CLI build.
+            let skip = c.mode == "set" && rows.iter().any(|(k, _)| k.is_empty());
+            if skip {
+                "yes".to_string()
+            } else {
+                let sc = Case { split: vec![rows.len()], items: rows, ..c.clone() };
+                let sdir = dir.join("sorted");
+                std::fs::create_dir_all(&sdir).unwrap();
+                let sin = write_inputs(&sdir, &sc);
+                let sargs: Vec<String> = vec![cmdname.to_string(), "--sorted".into(), "--force".into(), sin[0].file_name().unwrap().to_string_lossy().into_owned(), "out.fst".into()];
+                let (scode, serr) = run_fst(bin, &sdir, &sargs, None);
+                if scode != Some(0) {
+                    format!("no(--sorted build failed: {})", one_line(&serr))
+                } else if std::fs::read(sdir.join("out.fst")).ok().as_deref() != Some(&bytes[..]) {
+                    "no(--sorted build differs)".to_string()
+                } else {
+                    "yes".to_string()
+                }
+            }
+        }
+    };
+    // self-checks: nothing but the trace on stderr, temp directory removed again
+    let noise = one_line(&stderr);
+    if !noise.is_empty() {
+        x = format!("unexpected stderr: {}", noise);
+    }
+    if let Ok(rd) = std::fs::read_dir(dir) {
+        for e in rd.flatten() {
+            let name = e.file_name().to_string_lossy().into_owned();
+            if name.starts_with("rust-fst") {
+                x = format!("temporary directory {} left behind", name);
+            }
+        }
+    }
+    format!("S:{}|verify={}|sorted_equal={}\tM:len={};shape={};model=spec\tX:{}", content, verify, sorted_equal, n, shape, x)
+}
+
+// ---------------------------------------------------------------- generation
+const SMALL_KEYS: [&[u8]; 4] = [b"a", b"b", b"ab", b""];
+const BIG: u64 = 1 << 63;
+
+fn random_key(rng: &mut Rng, pool: usize) -> Vec<u8> {
+    // [a-z0-9]{0,6}, drawn from a small pool so that repeats are frequent
+    let id = rng.below(pool as u64);
+    let mut r = Rng::new(id.wrapping_mul(7919) + 17);
+    let len = if id == 0 { 0 } else { 1 + r.below(6) as usize };
+    (0..len).map(|_| *r.pick(b"abcdefghijklmnopqrstuvwxyz0123456789")).collect()
+}
+
+/// keep every per-key total below 2^63 in sum mode (overflow is outside the property)
+fn tame_for_sum(items: &mut Vec<(Vec<u8>, u64)>) {
+    let mut tot: HashMap<Vec<u8>, u128> = HashMap::new();
+    for (k, v) in items.iter_mut() {
+        let t = tot.entry(k.clone()).or_insert(0);
+        if *t + (*v as u128) >= (1u128 << 63) {
+            *v %= 1000;
+        }
+        *t += *v as u128;
+    }
+}
+
+fn finish_case(mode: &str, batch: u64, fd: u64, threads: u64, seed: u64, mut items: Vec<(Vec<u8>, u64)>, nfiles: usize, rng: &mut Rng) -> Case {
+    if mode == "set" {
+        for it in items.iter_mut() {
+            it.1 = 0;
+        }
+    }
+    if mode == "sum" {
+        tame_for_sum(&mut items);
+    }
+    // split the rows over nfiles files (empty files allowed)
+    let mut cuts: Vec<usize> = (0..nfiles.saturating_sub(1)).map(|_| rng.range(0, items.len())).collect();
+    cuts.sort();
+    let mut split = vec![];
+    let mut prev = 0;
+    for c in cuts {
+        split.push(c - prev);
+        prev = c;
+    }
+    split.push(items.len() - prev);
+    Case { mode: mode.to_string(), batch, fd, threads, seed, split, items }
+}
+
+const MODES: [&str; 4] = ["set", "sum", "max", "min"];
+const THREADS: [u64; 5] = [1, 2, 3, 8, 16];
+
+fn describe(c: &Case, stats: &mut Stats) {
+    stats.bump(&format!("mode_{}", c.mode));
+    stats.bump(&format!("threads_{}", c.threads));
+    stats.bump(&format!("fd_limit_{}", c.fd.min(9)));
+    stats.bump(&format!("batch_size_{}", if c.batch <= 5 { c.batch.to_string() } else { "6plus".to_string() }));
+    if c.items.is_empty() {
+        stats.bump("empty_input");
+    }
+    if c.split.len() > 1 {
+        stats.bump("multiple_input_files");
+    }
+    if c.items.iter().any(|(k, _)| k.is_empty()) {
+        stats.bump("has_empty_key");
+    }
+    if has_repeats(&c.items) {
+        stats.bump("inputs_with_repeated_keys");
+        // where do the repeats meet: inside one initial batch, or only across batches
+        let b = c.batch.max(1) as usize;
+        let mut within = false;
+        for ch in c.items.chunks(b) {
+            if has_repeats(ch) {
+                within = true;
+            }
+        }
+        stats.bump(if within { "repeats_within_a_batch" } else { "repeats_only_across_batches" });
+    } else {
+        stats.bump("inputs_without_repeated_keys");
+    }
+    let nb = (c.items.len() as u64 + c.batch.max(1) - 1) / c.batch.max(1);
+    stats.bump(&format!("initial_batches_{}", match nb { 0 => "0", 1 => "1", 2..=4 => "2to4", 5..=16 => "5to16", _ => "17plus" }));
+}
+
+impl Prop for P {
+    fn generate(&self, tier: Tier, rng: &mut Rng, stats: &mut Stats) -> Vec<String> {
+        match fst_bin() {
+            Ok(_) => {}
+            Err(e) => stats.notes.push(e),
+        }
+        let mut cases: Vec<Case> = vec![];
+        let (n_small_cfg, n_mid, n_grid_inputs, n_large) = match tier {
+            Tier::Quick => (2, 1000, 8, 300),
+            Tier::Thorough => (8, 4000, 40, 1500),
+            Tier::Wide => (4, 1500, 16, 600),
+        };
+        let seeds = [rng.below(1 << 30), rng.below(1 << 30), rng.below(1 << 30)];
+        // corpus/C19.txt, unless the driver has loaded it already (it looks next to the work directory)
+        if !stats.counters.contains_key("corpus_cases") {
+            let corpus = target_dir().join("..").join("..").join("corpus").join("C19.txt");
+            if let Ok(txt) = std::fs::read_to_string(&corpus) {
+                for l in txt.lines() {
+                    if !l.is_empty() && !l.starts_with('#') {
+                        cases.push(parse_case(l));
+                        stats.bump("corpus_cases");
+                    }
+                }
+            }
+        }
+        // historical witnesses (also in corpus/C19.txt)
+        for l in ["min 1 15 2 1 3 61:1,62:2,63:3", "max 2 15 2 1 2 61:1,61:2", "max 1 15 2 1 2 61:1,61:2"] {
+            cases.push(parse_case(l));
+            stats.bump("historical_witnesses");
+        }
+        // (1) exhaustive: every row sequence of length 0..3 over 3 keys x 2 values, under n_small_cfg random configurations
+        let opts: Vec<(Vec<u8>, u64)> = SMALL_KEYS[..3].iter().flat_map(|k| [1u64, 2].iter().map(move |v| (k.to_vec(), *v))).collect();
+        let mut seqs: Vec<Vec<(Vec<u8>, u64)>> = vec![vec![]];
+        let mut frontier = seqs.clone();
+        for _ in 0..3 {
+            let mut nx = vec![];
+            for s in &frontier {
+                for o in &opts {
+                    let mut t = s.clone();
+                    t.push(o.clone());
+                    nx.push(t);
+                }
+            }
+            seqs.extend(nx.iter().cloned());
+            frontier = nx;
+        }
+        for s in &seqs {
+            for _ in 0..n_small_cfg {
+                let c = finish_case(*rng.pick(&MODES), rng.range(1, 4) as u64, rng.range(2, 4) as u64, *rng.pick(&THREADS), *rng.pick(&seeds), s.clone(), rng.range(1, 2), rng);
+                cases.push(c);
+                stats.bump("family_exhaustive_len0to3");
+            }
+        }
+        // (2) sampled: 4..5 rows over 4 keys (incl. the empty key) x values {0,1,2,3,2^63-ish}, full parameter ranges
+        for _ in 0..n_mid {
+            let n = rng.range(4, 5);
+            let items: Vec<(Vec<u8>, u64)> = (0..n).map(|_| (rng.pick(&SMALL_KEYS).to_vec(), *rng.pick(&[0u64, 1, 2, 3, BIG, BIG - 1, u64::MAX]))).collect();
+            let c = finish_case(*rng.pick(&MODES), rng.range(1, 5) as u64, rng.range(2, 4) as u64, *rng.pick(&THREADS), *rng.pick(&seeds), items, rng.range(1, 3), rng);
+            cases.push(c);
+            stats.bump("family_sampled_len4to5");
+        }
+        // (3) configuration grid on a few fixed inputs: batch 1..5 x fd 2..4 x threads x 3 seeds x 4 modes (sampled 1 in k)
+        for gi in 0..n_grid_inputs {
+            let n = 5 + gi % 8;
+            let items: Vec<(Vec<u8>, u64)> = (0..n).map(|_| (rng.pick(&SMALL_KEYS[..3]).to_vec(), 1 + rng.below(3))).collect();
+            let keep = if tier == Tier::Quick { 8 } else { 3 };
+            for mode in MODES {
+                for batch in 1..=5u64 {
+                    for fd in 2..=4u64 {
+                        for th in THREADS {
+                            for sd in seeds {
+                                if rng.below(keep) == 0 {
+                                    cases.push(finish_case(mode, batch, fd, th, sd, items.clone(), 1, rng));
+                                    stats.bump("family_configuration_grid");
+                                }
+                            }
+                        }
+                    }
+                }
+            }
+        }
+        // (4) same input, batch 1, fd 2, many threads, many seeds: how many different schedules does the hook reach?
+        for mode in ["sum", "min"] {
+            let items: Vec<(Vec<u8>, u64)> = (0..12).map(|i| (SMALL_KEYS[i % 3].to_vec(), 1 + (i as u64 * 7) % 5)).collect();
+            for th in [1u64, 2, 3, 8, 16] {
+                for _ in 0..(if tier == Tier::Quick { 4 } else { 12 }) {
+                    cases.push(finish_case(mode, 1, *rng.pick(&[2u64, 3]), th, rng.below(1 << 30), items.clone(), 1, rng));
+                    stats.bump("family_schedule_spread");
+                }
+            }
+        }
+        // (5) random larger inputs with heavy duplication, random parameters, several files
+        for _ in 0..n_large {
+            let n = rng.range(6, 300);
+            let pool = *rng.pick(&[3usize, 8, 30, 400]);
+            let items: Vec<(Vec<u8>, u64)> = (0..n)
+                .map(|_| {
+                    let v = if rng.chance(1, 10) { *rng.pick(&[BIG, BIG - 1, u64::MAX, 1 << 62]) } else { rng.below(1000) };
+                    (random_key(rng, pool), v)
+                })
+                .collect();
+            let batch = if rng.chance(1, 8) { 100_000 } else { rng.range(1, 40) as u64 };
+            let fd = if rng.chance(1, 6) { 15 } else { rng.range(2, 6) as u64 };
+            let c = finish_case(*rng.pick(&MODES), batch, fd, *rng.pick(&[1u64, 2, 3, 4, 8, 16]), rng.below(1 << 30), items, rng.range(1, 4), rng);
+            cases.push(c);
+            stats.bump("family_random_large");
+        }
+        // (6) inputs without repeated keys (byte identity with a sorted build), shuffled, random parameters
+        for _ in 0..n_large {
+            let n = rng.range(0, 120);
+            let mut keys: BTreeSet<Vec<u8>> = BTreeSet::new();
+            for _ in 0..n {
+                keys.insert(random_key(rng, 5000));
+            }
+            let mut items: Vec<(Vec<u8>, u64)> = keys.into_iter().map(|k| (k, if rng.chance(1, 10) { *rng.pick(&[BIG, u64::MAX, 0]) } else { rng.below(100000) })).collect();
+            for i in (1..items.len()).rev() {
+                let j = rng.range(0, i);
+                items.swap(i, j);
+            }
+            let batch = rng.range(1, 30) as u64;
+            let fd = rng.range(2, 5) as u64;
+            let c = finish_case(*rng.pick(&MODES), batch, fd, *rng.pick(&THREADS), rng.below(1 << 30), items, rng.range(1, 3), rng);
+            cases.push(c);
+            stats.bump("family_random_distinct_keys");
+        }
+        for c in &cases {
+            describe(c, stats);
+        }
+        cases.iter().map(render_case).collect()
+    }
+
+    fn nontrivial(&self, case: &str) -> bool {
+        // at least two initial batches, i.e. at least one union generation
+        let c = parse_case(case);
+        c.items.len() as u64 > c.batch.max(1)
+    }
+
+    fn execute(&self, case: &str) -> String {
+        let bin = match fst_bin() {
+            Ok(b) => b,
+            Err(e) => return format!("S:NOBINARY {}\tM:-", one_line(&e)),
+        };
+        let c = parse_case(case);
+        let dir = target_dir().join("c19tmp").join(format!("{}-{}", std::process::id(), DIRCTR.fetch_add(1, Ordering::SeqCst)));
+        let _ = std::fs::remove_dir_all(&dir);
+        std::fs::create_dir_all(&dir).unwrap();
+        let r = std::panic::catch_unwind(std::panic::AssertUnwindSafe(|| execute_in(&bin, &dir, &c, case)));
+        let _ = std::fs::remove_dir_all(&dir);
+        match r {
+            Ok(l) => l,
+            Err(e) => std::panic::resume_unwind(e),
+        }
+    }
+
+    fn extras(&self, _tier: Tier, _rng: &mut Rng, stats: &mut Stats) -> Vec<(String, bool, String)> {
+        let s = seen().lock().unwrap();
+        let multi = s.per_config.values().filter(|v| v.len() > 1).count() as u64;
+        let repeated_cfg = s.per_config.len() as u64;
+        let maxg = s.per_config.values().map(|v| v.len()).max().unwrap_or(0) as u64;
+        stats.add("runs_with_union_generations", s.union_runs);
+        stats.add("union_batches_traced", s.union_batches);
+        stats.add("distinct_union_groupings", s.all.len() as u64);
+        stats.add("runs_with_results_out_of_index_order", s.reordered_runs);
+        stats.add("configurations_with_unions", repeated_cfg);
+        stats.add("configurations_seen_with_2plus_groupings", multi);
+        stats.add("max_groupings_of_one_configuration", maxg);
+        let _ = std::fs::remove_dir(target_dir().join("c19tmp"));
+        let distinct: BTreeSet<&String> = s.all.iter().collect();
+        vec![(
+            "schedules_exercised".to_string(),
+            true,
+            format!(
+                "{} runs reached the union stage ({} union batches); {} distinct (configuration, grouping) pairs; in {} runs the worker results arrived out of index order; {} configurations showed >= 2 different groupings (max {} for one configuration)",
+                s.union_runs, s.union_batches, distinct.len(), s.reordered_runs, multi, maxg
+            ),
+        )]
     }
 }
